@@ -194,6 +194,11 @@ def _decompress(
     dcomped += dcomp.flush()
     if len(dcomped) > max_size:
         raise zlib.error("decompressed data exceeds maximum size")
+    if not dcomp.eof:
+        # The stream never reached its end marker, so neither its length nor
+        # its Adler-32 checksum has been verified: a truncated or damaged
+        # object would be returned as if it were complete.
+        raise zlib.error("incomplete or truncated zlib stream")
     return dcomped
 
 
@@ -541,6 +546,15 @@ class ShaFile:
         header_end = text.find(b"\0")
         if header_end < 0:
             raise ObjectFormatException("Invalid object header, no \\0")
+        try:
+            size = int(text[:header_end].split(b" ", 1)[1])
+        except (IndexError, ValueError) as exc:
+            raise ObjectFormatException(f"Invalid object header: {exc}") from exc
+        if size != len(text) - header_end - 1:
+            raise ObjectFormatException(
+                f"Object size {len(text) - header_end - 1} does not match "
+                f"the size {size} in its header"
+            )
         self.set_raw_string(text[header_end + 1 :])
 
     def as_legacy_object_chunks(self, compression_level: int = -1) -> Iterator[bytes]:
